@@ -198,6 +198,9 @@ def run(res, tier, seed, shard, nshards):
         for i in range(18 if tier == "quick" else 300):
             if (i + shard) % nshards == 0:
                 partial_send_then_reconnect_case(res, W, rng)
+        for i in range(12 if tier == "quick" else 200):
+            if (i + shard) % nshards == 0:
+                class_option_case(res, W, rng)
         # one ABNF object written several times (re-sent as is, and with fin/opcode/data updated per fragment):
         # every write is one well-formed frame of its own with a fresh key
         for ks in ("default", "bytes", "str"):
@@ -465,9 +468,15 @@ def tricky_text_case(res, W, rng, t):
 
 def partial_send_then_reconnect_case(res, W, rng):
     import socket as _socket
-    w, conn, peer = H.connected_ws(timeout=1)
+    ks = rng.choice(["default", "bytes", "str"])
+    src = KeySrc(ks, rng)
+    setter = rng.random() < 0.5 and ks != "default"
+    w, conn, peer = H.connected_ws(timeout=1, ws_kwargs=({} if setter else {"get_mask_key": src.fn()}))
+    if setter:
+        w.set_mask_key(src.fn())
     n = rng.choice([0, 1, 5, 125, 126, 300, 70000])
-    k = rng.choice([1, 2, 3, 5, 6, 8, 13, 150])
+    # k = number of bytes of the frame the transport accepts before it fails; 10**9 = no failure at all (a clean first connection)
+    k = rng.choice([1, 2, 3, 5, 6, 8, 13, 150, 10 ** 9, 10 ** 9])
     err = rng.choice(["timeout", "timeout", "reset"])
     e = _socket.timeout("timed out") if err == "timeout" else ConnectionResetError(104, "Connection reset by peer")
 
@@ -475,7 +484,8 @@ def partial_send_then_reconnect_case(res, W, rng):
         conn.send_error = e
         yield k
 
-    conn.write_plan = plan()
+    if k < 10 ** 9:
+        conn.write_plan = plan()
     api = rng.choice(["send_binary", "ping", "send_close", "send_frame"])
     try:
         if api == "send_binary":
@@ -514,6 +524,8 @@ def partial_send_then_reconnect_case(res, W, rng):
         return
     payload = rng.randbytes(rng.choice([0, 3, 200]))
     before = len(peer2.client_stream)
+    del src.draws[:]
+    u0 = len(shim.urandom_log)
     try:
         ret = w.send_binary(payload)
     except Exception as x:  # noqa
@@ -522,8 +534,87 @@ def partial_send_then_reconnect_case(res, W, rng):
         return
     res.case(("partial-reconnect", api, n, k, err, how))
     res.count("sends_after_partial_send_and_reconnect")
-    _check_frame(res, f"first frame on a new connection of the same object (the old one saw {k} bytes of a {api} frame, then {err}; dropped by {how})",
-                 bytes(peer2.client_stream[before:]), payload, R.BINARY, 1, ret, case, api="reconnect-after-partial-send")
+    f = _check_frame(res, f"first frame on a new connection of the same object (the old one saw {k} bytes of a {api} frame, then {err}; dropped by {how})",
+                     bytes(peer2.client_stream[before:]), payload, R.BINARY, 1, ret, case, api="reconnect-after-partial-send")
+    if f is not None and ks != "default":
+        # the key source configured on the object is still the one in force on its second connection
+        os_draws = [1 for (n_, v, fn, fun) in shim.urandom_log[u0:] if fn == "_abnf.py"]
+        vb = None
+        if len(src.draws) == 1:
+            v = src.draws[0][1]
+            vb = v.encode("ascii") if isinstance(v, str) else v
+        if len(src.draws) != 1 or os_draws or vb != f.key:
+            res.violation("key-draws", f"second connection of one object (first dropped by {how}): {len(src.draws)} draws from the configured {ks} key source, "
+                          f"{len(os_draws)} from the OS; key on the wire {f.key.hex()}", dict(case, keysrc=ks, configured_by="set_mask_key" if setter else "constructor"),
+                          api="reconnect-after-partial-send", keysrc=ks)
+
+
+class _PassThrough:
+    pass
+
+
+def class_option_case(res, W, rng):
+    """create_connection(url, class_=<a WebSocket subclass>, get_mask_key=..., ...): the options reach the object whatever the subclass'
+    constructor looks like"""
+    ks = rng.choice(["bytes", "str"])
+    src = KeySrc(ks, rng)
+    kind = rng.choice(["plain-subclass", "pass-through-init", "explicit-init"])
+    if kind == "plain-subclass":
+        class Sub(W.WebSocket):
+            pass
+    elif kind == "pass-through-init":
+        class Sub(W.WebSocket):
+            def __init__(self, *args, **kwargs):
+                super().__init__(*args, **kwargs)
+                self.extra = 1
+    else:
+        class Sub(W.WebSocket):
+            def __init__(self, get_mask_key=None, sockopt=None, sslopt=None, fire_cont_frame=False, enable_multithread=True, skip_utf8_validation=False, **kw):
+                super().__init__(get_mask_key, sockopt, sslopt, fire_cont_frame, enable_multithread, skip_utf8_validation, **kw)
+    conns = []
+    H.make_net(lambda c: (conns.append(c), H.HandshakePeer(c)))
+    case = {"gen": "class-option", "subclass": kind, "keysrc": ks}
+    try:
+        w = W.create_connection("ws://sim.test/c", timeout=2, class_=Sub, get_mask_key=src.fn())
+    except Exception as e:  # noqa
+        res.violation("send-raised", f"create_connection(class_={kind}): {type(e).__name__}: {e}", case, api="class-option", exc_type=type(e).__name__)
+        return
+    peer = conns[0].hs
+    res.case(("class-option", kind, ks))
+    res.count("class_option_cases")
+    for api in ("send", "ping", "send_binary"):
+        payload = rng.randbytes(rng.choice([0, 5, 130]) if api != "ping" else 5)
+        del src.draws[:]
+        u0 = len(shim.urandom_log)
+        before = len(peer.client_stream)
+        try:
+            if api == "send":
+                t = payload.hex()
+                payload = t.encode()
+                w.send(t); op = R.TEXT
+            elif api == "ping":
+                w.ping(payload); op = R.PING
+            else:
+                w.send_binary(payload); op = R.BINARY
+        except Exception as e:  # noqa
+            res.violation("send-raised", f"{api} on a {kind} object: {type(e).__name__}: {e}", case, api="class-option", exc_type=type(e).__name__)
+            return
+        f = _check_frame(res, f"{api} on a create_connection(class_={kind}) object", bytes(peer.client_stream[before:]), payload, op, 1, None, case, api="class-option", keysrc=ks)
+        if f is None:
+            return
+        os_draws = [1 for (n_, v, fn, fun) in shim.urandom_log[u0:] if fn == "_abnf.py"]
+        vb = None
+        if len(src.draws) == 1:
+            v = src.draws[0][1]
+            vb = v.encode("ascii") if isinstance(v, str) else v
+        if len(src.draws) != 1 or os_draws or vb != f.key:
+            res.violation("key-draws", f"create_connection(class_={kind}, get_mask_key=...): {len(src.draws)} draws from the configured source, {len(os_draws)} from the OS",
+                          case, api="class-option", keysrc=ks)
+            return
+    try:
+        w.shutdown()
+    except Exception:  # noqa
+        pass
 
 
 def frame_keysrc_case(res, W, rng):
